@@ -603,9 +603,9 @@ Section BuildProofs.
           * apply lookup_In in Es, Eo. exact (proj2 (Hk _ _ Es) _ _ Eo).
           * apply lookup_In in Ek, Eit. exact (proj1 (Hk _ _ Ek) _ _ Eit).
         + destruct (lookup (esink e) (nodes b)); [|eauto]. destruct (einto e); [|eauto].
-          destruct (truthy _); eauto.
+          destruct (truthy (lookup _ (ischema _))); eauto.
       - destruct (lookup (esink e) (nodes b)); [|eauto]. destruct (einto e); [|eauto].
-        destruct (truthy _); eauto. }
+        destruct (truthy (lookup _ (ischema _))); eauto. }
     cbn. destruct (flat_map unknown_kw_of (nodes b) ++ st ++ ee); eauto.
   Qed.
 
